@@ -82,6 +82,7 @@ func seqAlphabet(era drive.Era) []seqEvent {
 		{name: "W", rates: R1(), weak: true, submit: one("A:usd>eur", KA, kit.Conversion(A, "pUSD", U/10, "pEUR"))},
 		{name: "Bn", rates: R1(), burn: 7e8, submit: one("A:fct>usd", KA, kit.Conversion(A, "pFCT", 7e8, "pUSD"))},
 		{name: "Wr", rates: R1(), submit: []seqTx{{name: "A>wrap", signer: KA, malformed: true, txs: []kit.Tx{{From: A, Asset: "pUSD", Amount: U / 10, To: []kit.Out{{Addr: B, Amount: 1<<63 - 1}, {Addr: C, Amount: 1<<63 - 1}, {Addr: B, Amount: U/10 + 2}}}}}}},
+		{name: "Y", rates: R2(), submit: one("A:usd>jpy,A:eur>jpy", KA, kit.Conversion(A, "pUSD", U/10, "pJPY"), kit.Conversion(A, "pEUR", E/4, "pJPY"))},
 		{name: "X", rates: R2(), submit: one("A:usd>jpy,A:jpy>B", KA, kit.Conversion(A, "pUSD", U/10, "pJPY"), kit.Transfer(A, "pJPY", U/10*50, B))},
 	}
 	if era.ConvLimit != drive.Never && era.V20 > era.Base+5 {
@@ -508,7 +509,7 @@ func seqPlanFor(thorough bool, prop string) []seqEra {
 
 var seqProps = []string{"C03", "C04", "C06", "C07", "C11", "C13", "C17"}
 
-const seqRule = " PLUS the sequence family: every sequence of block events (alphabet of 22, 24 from 2.0.2 on: ungraded / graded at two rate vectors, transfers A>B and B>A, a transfer naming one recipient twice and the sender itself, a transfer with zero-amount outputs around the funded ones, conversions submitted in graded and ungraded blocks, a two-entry block, byte-identical copies of the previous entry, a PEG request, a chained batch in both orders, conversions into pFCT and into a small asset, a conversion whose output the same batch spends, a block with too few price records, an FCT burn with a pFCT conversion, a transfer whose outputs equal its input only modulo 2^64; from 2.0.2 on a block whose staking records put pEUR outside the tolerance band so that it is recorded as 0, with and without a pEUR conversion submitted in it; in the eras with a PEG bank a one-unit PEG request next to one of ten banks) up to the stated depth from a funded state in several eras; after EVERY block the balances of the three actors and the miner and the status of every submitted entry are compared with a reference ledger kept in maps; this property reports the discrepancies of its class"
+const seqRule = " PLUS the sequence family: every sequence of block events (alphabet of 23, 25 from 2.0.2 on: ungraded / graded at two rate vectors, transfers A>B and B>A, a transfer naming one recipient twice and the sender itself, a transfer with zero-amount outputs around the funded ones, conversions submitted in graded and ungraded blocks, a two-entry block, byte-identical copies of the previous entry, a PEG request, a chained batch in both orders, conversions into pFCT and into a small asset, a conversion whose output the same batch spends, a batch of two conversions from different assets, a block with too few price records, an FCT burn with a pFCT conversion, a transfer whose outputs equal its input only modulo 2^64; from 2.0.2 on a block whose staking records put pEUR outside the tolerance band so that it is recorded as 0, with and without a pEUR conversion submitted in it; in the eras with a PEG bank a one-unit PEG request next to one of ten banks) up to the stated depth from a funded state in several eras; after EVERY block the balances of the three actors and the miner and the status of every submitted entry are compared with a reference ledger kept in maps; this property reports the discrepancies of its class"
 
 // files of a package are initialised in file-name order, so the drivers are registered by now
 func init() {
